@@ -665,7 +665,8 @@ pub fn format_code(
 		ConvTypeV::Percent => tmp_out.push('%'),
 	}
 
-	let padding = width.saturating_sub(tmp_out.len() as u16);
+	// Width is measured in characters, not in bytes
+	let padding = width.saturating_sub(tmp_out.chars().count().min(usize::from(u16::MAX)) as u16);
 
 	if !clfags.left {
 		for _ in 0..padding {
